@@ -1,7 +1,193 @@
+/-
+  CB.Driver.C03 — line protocol of property C03 (multiplication / squaring).
+  Every line prints `L1 ;; L0`: L1 = the limb-level model (CB.Model.Mul / Karatsuba), L0 = what the
+  property demands, computed with plain `Nat` / `Int` arithmetic on the operand values.
+-/
 import CB.Driver.Util
+import CB.Model.Karatsuba
 namespace CB
 
+namespace D03
+open CB.Mul CB.Karatsuba
+
+def both (l1 l0 : String) : Option String := some s!"{l1} ;; {l0}"
+
+def optTok (v : List Nat) (m : Nat) : String := if m = WMAX then limbsHex v else if m = 0 then "none" else s!"badchoice:{natToHex m}"
+def panicTok (v : List Nat) (m : Nat) : String := if m = WMAX then limbsHex v else if m = 0 then "panic" else s!"badchoice:{natToHex m}"
+
+/-- value of `n` two's-complement limbs as an `Int` -/
+def toInt (n : Nat) (a : Nat) : Int := if 2 * a ≥ B ^ n then (a : Int) - (B ^ n : Nat) else (a : Int)
+/-- two's-complement encoding on `n` limbs -/
+def ofInt (n : Nat) (i : Int) : Nat := (i % ((B ^ n : Nat) : Int)).toNat
+def fitsInt (n : Nat) (i : Int) : Bool := decide (-(((B ^ n / 2 : Nat) : Int)) ≤ i) && decide (i < ((B ^ n / 2 : Nat) : Int))
+
+def parse2 (n m x y : String) : Option (Nat × Nat × Nat × Nat) :=
+  match n.toNat?, m.toNat?, hexToNat? x, hexToNat? y with
+  | some n, some m, some x, some y => some (n, m, x, y)
+  | _, _, _, _ => none
+
+def parse1 (n x : String) : Option (Nat × Nat) :=
+  match n.toNat?, hexToNat? x with
+  | some n, some x => some (n, x)
+  | _, _ => none
+
+/-- unsigned binary ops on fixed `Uint<n>` × `Uint<m>` -/
+def uintOp (name : String) (n m a b : Nat) : Option String :=
+  let x := toLimbs n a
+  let y := toLimbs m b
+  let p := a * b
+  let K := B ^ n
+  match name with
+  | "split_mul" =>
+    let r := splitMul x y
+    both s!"{limbsHex r.1} {limbsHex r.2}" s!"{natToHex (p % K)} {natToHex (p / K)}"
+  | "widening_mul" => both (limbsHex (concatPair (splitMul x y))) (natToHex p)
+  | "wrapping_mul" => both (limbsHex (wrappingOfPair (splitMul x y))) (natToHex (p % K))
+  | "saturating_mul" => both (limbsHex (saturatingOfPair (splitMul x y))) (natToHex (min p (K - 1)))
+  | "checked_mul" =>
+    let r := checkedOfPair (splitMul x y)
+    both (optTok r.1 r.2) (if p < K then natToHex p else "none")
+  | "mul_ops" =>
+    let r := checkedOfPair (splitMul x y)
+    both (panicTok r.1 r.2) (if p < K then natToHex p else "panic")
+  | "checked_ops" =>
+    let r := checkedOfPair (splitMul x y)
+    both (optTok r.1 r.2) (if p < K then natToHex p else "none")
+  | _ => none
+
+/-- unsigned unary (squaring) ops on `Uint<n>` -/
+def uintSq (name : String) (n a : Nat) : Option String :=
+  let x := toLimbs n a
+  let p := a * a
+  let K := B ^ n
+  match name with
+  | "square_wide" =>
+    let r := squareWide x
+    both s!"{limbsHex r.1} {limbsHex r.2}" s!"{natToHex (p % K)} {natToHex (p / K)}"
+  | "widening_square" => both (limbsHex (concatPair (squareWide x))) (natToHex p)
+  | "wrapping_square" => both (limbsHex (wrappingOfPair (squareWide x))) (natToHex (p % K))
+  | "saturating_square" => both (limbsHex (saturatingOfPair (squareWide x))) (natToHex (min p (K - 1)))
+  | "checked_square" =>
+    let r := checkedSquareOfPair (squareWide x)
+    both (optTok r.1 r.2) (if p < K then natToHex p else "none")
+  | _ => none
+
+def intOp (name : String) (n m a b : Nat) : Option String :=
+  let x := toLimbs n a
+  let y := toLimbs m b
+  let sa := toInt n (a % B ^ n)
+  let sb := toInt m (b % B ^ m)
+  let p := sa * sb
+  let K := B ^ n
+  match name with
+  | "split_mul" =>
+    let r := intSplitMul splitMul x y
+    let neg := decide (sa < 0) != decide (sb < 0)
+    both s!"{limbsHex r.1} {limbsHex r.2.1} {choiceTok r.2.2}"
+      s!"{natToHex (p.natAbs % K)} {natToHex (p.natAbs / K)} {if neg then "1" else "0"}"
+  | "widening_mul" => both (limbsHex (intWideningMul splitMul x y)) (natToHex (ofInt (n + m) p))
+  | "checked_mul" =>
+    let r := intCheckedMul splitMul x y
+    both (optTok r.1 r.2) (if fitsInt n p then natToHex (ofInt n p) else "none")
+  | "mul_ops" =>
+    let r := intCheckedMul splitMul x y
+    both (panicTok r.1 r.2) (if fitsInt n p then natToHex (ofInt n p) else "panic")
+  | "checked_ops" =>
+    let r := intCheckedMul splitMul x y
+    both (optTok r.1 r.2) (if fitsInt n p then natToHex (ofInt n p) else "none")
+  | _ => none
+
+def intSq (name : String) (n a : Nat) : Option String :=
+  let x := toLimbs n a
+  let sa := toInt n (a % B ^ n)
+  let p := sa.natAbs * sa.natAbs
+  let K := B ^ n
+  let ab := (intAbsSign x).1
+  match name with
+  | "widening_square" => both (limbsHex (concatPair (squareWide ab))) (natToHex p)
+  | "wrapping_square" => both (limbsHex (wrappingOfPair (squareWide ab))) (natToHex (p % K))
+  | "saturating_square" => both (limbsHex (saturatingOfPair (squareWide ab))) (natToHex (min p (K - 1)))
+  | "checked_square" =>
+    let r := checkedSquareOfPair (squareWide ab)
+    both (optTok r.1 r.2) (if p < K then natToHex p else "none")
+  | _ => none
+
+def limbOp (name : String) (a b : Nat) : Option String :=
+  let p := a * b
+  match name with
+  | "saturating_mul" => both (natToHex (limbSaturatingMul a b)) (natToHex (min p WMAX))
+  | "wrapping_mul" => both (natToHex (limbWrappingMul a b)) (natToHex (p % B))
+  | "mul_wide" => let r := mulWide a b; both s!"{natToHex r.1} {natToHex r.2}" s!"{natToHex (p % B)} {natToHex (p / B)}"
+  | "checked_mul" =>
+    let r := limbCheckedMul a b
+    both (if r.2 = WMAX then natToHex r.1 else "none") (if p < B then natToHex p else "none")
+  | "checked_ops" =>
+    let r := limbCheckedMul a b
+    both (if r.2 = WMAX then natToHex r.1 else "none") (if p < B then natToHex p else "none")
+  | "mul_ops" =>
+    let r := limbCheckedMul a b
+    both (if r.2 = WMAX then natToHex r.1 else "panic") (if p < B then natToHex p else "panic")
+  | _ => none
+
+def lenHex (n v : Nat) : String := s!"{n}:{natToHex v}"
+
+def boxedOp (name : String) (n m a b : Nat) : Option String :=
+  let x := toLimbs n a
+  let y := toLimbs m b
+  let p := a * b
+  let K := B ^ n
+  match name with
+  | "mul" => both (limbsHexLen (boxedMul x y)) (lenHex (n + m) p)
+  | "wrapping_mul" => both (limbsHexLen (boxedWrappingMul x y)) (lenHex n (p % K))
+  | "checked_mul" =>
+    let r := boxedCheckedMul x y
+    both (if r.2 = WMAX then limbsHexLen r.1 else "none") (if p < K then lenHex n p else "none")
+  | "mul_ref" =>
+    let r := boxedCheckedMul x y
+    both (if r.2 = WMAX then limbsHexLen r.1 else "panic") (if p < K then lenHex n p else "panic")
+  | _ => none
+
+end D03
+
+open D03 CB.Mul CB.Karatsuba in
 /-- operations of property C03 (op names start with `c03.`) -/
-def dispatchC03 : Dispatch := fun _ _ => none
+def dispatchC03 : Dispatch := fun op args =>
+  match op.splitOn ".", args with
+  | ["c03", "l", "mac"], [a, b, c, d] =>
+    match hexToNat? a, hexToNat? b, hexToNat? c, hexToNat? d with
+    | some a, some b, some c, some d =>
+      let r := mac a b c d
+      let s := a + b * c + d
+      both s!"{natToHex r.1} {natToHex r.2}" s!"{natToHex (s % B)} {natToHex (s / B)}"
+    | _, _, _, _ => badArgs
+  | ["c03", "l", name], [a, b] =>
+    match hexToNat? a, hexToNat? b with
+    | some a, some b => limbOp name a b
+    | _, _ => badArgs
+  | ["c03", "u", name], [n, m, x, y] =>
+    match parse2 n m x y with
+    | some (n, m, x, y) => uintOp name n m x y
+    | none => badArgs
+  | ["c03", "u", name], [n, x] =>
+    match parse1 n x with
+    | some (n, x) => uintSq name n x
+    | none => badArgs
+  | ["c03", "i", name], [n, m, x, y] =>
+    match parse2 n m x y with
+    | some (n, m, x, y) => intOp name n m x y
+    | none => badArgs
+  | ["c03", "i", name], [n, x] =>
+    match parse1 n x with
+    | some (n, x) => intSq name n x
+    | none => badArgs
+  | ["c03", "b", "square"], [n, x] =>
+    match parse1 n x with
+    | some (n, x) => both (limbsHexLen (boxedSquare (toLimbs n x))) (lenHex (2 * n) (x * x))
+    | none => badArgs
+  | ["c03", "b", name], [n, m, x, y] =>
+    match parse2 n m x y with
+    | some (n, m, x, y) => boxedOp name n m x y
+    | none => badArgs
+  | _, _ => none
 
 end CB
